@@ -5,7 +5,9 @@ _route_netstat / _route_windows / _list_routes / list_routes (every branch of it
 choice: win32, ip, netstat, neither; tool exit status zero and non-zero), the real
 sshuttle.server.main (start-up up to the ROUTES message, on linux and on win32 with a
 stand-in for helpers.SocketRWShim; fake Popen producing generated `ip route` /
-`netstat -rn` / `route PRINT -4` texts)
+`netstat -rn` / `route PRINT -4` texts for volume, and - in a child interpreter under a
+watchdog - the real subprocess.Popen starting a real program named ip / netstat / route
+found on PATH, whose output of 0 .. 40000 lines is read through a real kernel pipe)
 and the real sshuttle.client._main (handshake, Mux, onroutes, recording firewall
 stub) are run against the extracted Coq model (coq/Model/Routes.v) on the same
 generated inputs.  Independent oracle for well-formed tables: ipaddress.ip_network."""
@@ -25,7 +27,11 @@ RULE = ("routing-table texts: iproute2, Windows `route PRINT -4` (On-link and ga
         "default/127.x/0.x entries, header and IPv6 lines, interleaved junk (a/b/c, x/, x/yy, octets > 255, octal octets, "
         "negative and oversized widths, > 4300-digit numbers, non-ASCII bytes, \\x1c-only lines); single-token differential "
         "tests of the _ipmatch recogniser on grammar-derived, single-edit and random ASCII strings; payload sizes around "
-        "65535 bytes; client payloads well-formed and malformed.  A case is non-trivial when at least one route is produced "
+        "65535 bytes; client payloads well-formed and malformed; the routing tool as a real process on a real pipe "
+        "(list_routes() and server.main in a child interpreter, real Popen / which / PATH): 0 .. several thousand lines "
+        "(thorough: 40000), exactly as many lines as the pipe holds and one more, written at once / page by page / slowly "
+        "in odd-sized chunks that end inside lines / after an initial delay, exit status zero and non-zero after printing; "
+        "the call must return within the time limit with exactly the canonical networks of the lines printed.  A case is non-trivial when at least one route is produced "
         "or a line is rejected for a reason other than being blank; distinct by content hash")
 TRUSTED_BASE = [
     "modelled, not verified: CPython re (the _ipmatch pattern, re-implemented as a structural recogniser and differential-tested on ASCII strings), "
@@ -34,11 +40,19 @@ TRUSTED_BASE = [
     "fake Popen (stdout = io.BytesIO(text), wait() = 0 or a non-zero status), fake which(), sys.platform as seen by server.py = 'linux' or 'win32' "
     "(then helpers.SocketRWShim is replaced by a pass-through: its threads are not run), fake FileIO/stdout for server.main, fake ssh.connect / runonce and a recording firewall stub for client._main",
     "socket.AF_INET = 2, socket.AF_INET6 = 10 (Linux values; defined in Model/Routes.v)",
+    "real-process runs: the routing tool is a small program written by the harness (prints a generated table in a given chunking, "
+    "then exits with a given status) in a temporary directory put first on PATH of a child interpreter only; the pipe, its capacity "
+    "(fcntl F_GETPIPE_SZ, 65536 here), blocking writes, Popen, which() (for `ip`; for netstat it only hides the machine's own ip) "
+    "and wait() are the real kernel's / CPython's.  Watchdog: a run not back after 25 s is a hang if all its processes sleep and use "
+    "no CPU time for 3 s, or is still not back after 150 s; the run's process group (tool included) is then killed",
 ]
 ASSUMPTIONS = [
     "the routing tool's output reaches _list_routes as bytes; str-level functions are modelled for ASCII text only, because the only producer is line.decode('ASCII') (non-ASCII bytes are modelled as UnicodeDecodeError / skipped after the F7 repair)",
     "as-found code with a negative prefix length w needs about 2^(-w)/8 bytes of memory for 2 ** (32 - w); the as-found model assumes it is available (tested only for w >= -2000 and for the OverflowError threshold)",
     "the ROUTES message is sent in one frame, as the code does",
+    "the routing tool terminates after printing its table and does not wait for input; the Coq model takes the tool's complete output as a "
+    "byte string - that the code obtains it for every size (reads the pipe to its end before waiting for the exit status) is checked by the "
+    "real-process runs only, it is not a theorem",
     "Windows (`route PRINT -4`): the property text names the iproute2 and netstat formats only; for the Windows parser the oracle asks that "
     "no line ends the server, that every advertised network is the canonical network of a printed On-link row (in order), that every On-link row "
     "which is not a host route and does not start with 127./0./224./169.254. is advertised, and that the advertisement is delivered; the rows "
@@ -155,9 +169,11 @@ def impl_lr(tool, text, rv=0):
     return "OK " + ",".join("%s/%d" % (ip, w) for (_f, ip, w) in rs)
 
 
-def impl_list_routes(tool, text, rv=0):
+def impl_list_routes(tool, text, rv=0, real=False):
     """real list_routes() - the generator with the tool choice (sys.platform, which) and the 0.x / 127.x filter -
     with `tool` as the only routing tool of the machine ('win': sys.platform == 'win32'; 'none': neither ip nor netstat).
+    real: the routing tool is a program on PATH, started by the real subprocess.Popen and read through a real pipe
+    (see real_run; the real which() is used when the tool is `ip`, for netstat it only hides the machine's own `ip`).
     Returns ('OK a/w,...' | 'CRASH cls', argv lists of the commands started)."""
     server = load()["server"]
     shim = SysShim()
@@ -166,8 +182,10 @@ def impl_list_routes(tool, text, rv=0):
     FakePopen.text = text
     FakePopen.rv = rv
     FakePopen.argvs = []
-    server.ssubprocess.Popen = FakePopen
-    server.which = lambda f, *a, **k: ("/sbin/" + f if f == tool else None)
+    if not real:
+        server.ssubprocess.Popen = FakePopen
+    if not (real and tool == "ip"):
+        server.which = lambda f, *a, **k: ("/sbin/" + f if f == tool else None)
     server.sys = shim
     server.log = lambda s: None
     try:
@@ -229,9 +247,10 @@ class PassThroughShim:
         return self.r, self.w
 
 
-def impl_server(tool, text, rv=0):
+def impl_server(tool, text, rv=0, real=False):
     """real server.main (auto_nets on) up to the first runonce; `tool` is the machine's only routing tool
     ('win': sys.platform == 'win32', 'none': neither ip nor netstat), rv its exit status.
+    real: the routing tool is a program on PATH started by the real subprocess.Popen (see real_run).
     Returns ('OK', payload, wire) or ('CRASH', cls, None)."""
     S = load()
     server, ssnet, helpers = S["server"], S["ssnet"], S["helpers"]
@@ -253,8 +272,10 @@ def impl_server(tool, text, rv=0):
     FakePopen.text = text
     FakePopen.rv = rv
     FakePopen.argvs = []
-    server.ssubprocess.Popen = FakePopen
-    server.which = fake_which
+    if not real:
+        server.ssubprocess.Popen = FakePopen
+    if not (real and tool == "ip"):
+        server.which = fake_which
     server.sys = shim
     server.io = IoShim()
     ssnet.runonce = stop
@@ -769,6 +790,326 @@ def mutate(rng, s):
 
 
 # --------------------------------------------------------------------------
+# G: the routing tool as a REAL process on a REAL pipe.
+# A small program named ip / netstat / route is written to a temporary directory that is put first on PATH of a
+# child interpreter only; the child runs the real list_routes() / server.main with the real subprocess.Popen (and the
+# real which() for `ip`), so the kernel's pipe semantics apply: a pipe holds a bounded number of bytes (64 KiB on
+# Linux), a writer that has more to say blocks until the reader reads, data arrives in chunks that do not end at line
+# ends, and the exit status exists only after the tool has written everything.  A watchdog in the parent abandons a
+# run that does not return (the child's whole process group, tool included, is killed).
+
+REAL_LIMIT = 25.0          # seconds a real run may take before it is examined (it needs well under one second)
+REAL_HARD_FACTOR = 6       # a run that still shows activity at REAL_LIMIT is given up to REAL_LIMIT * this
+
+FAKE_TOOL_SRC = r'''import json, os, sys, time
+d = os.path.dirname(os.path.abspath(__file__))
+spec = json.load(open(os.path.join(d, "spec.json")))
+if sys.argv[1:] != spec["args"]:
+    os._exit(64)
+data = open(os.path.join(d, "out.bin"), "rb").read()
+
+
+def put(b):
+    while b:
+        k = os.write(1, b)
+        b = b[k:]
+
+
+time.sleep(spec.get("delay", 0))
+pos = 0
+try:
+    for n, pause in spec["chunks"]:
+        put(data[pos:pos + n])
+        pos += n
+        time.sleep(pause)
+    put(data[pos:])
+except OSError:
+    os._exit(65)
+os._exit(spec["rv"])
+'''
+
+
+def pipe_capacity():
+    try:
+        import fcntl
+        r, w = os.pipe()
+        try:
+            return fcntl.fcntl(w, getattr(fcntl, "F_GETPIPE_SZ", 1032))
+        finally:
+            os.close(r)
+            os.close(w)
+    except Exception:
+        return 65536
+
+
+def real_table(fmt, n, salt):
+    """deterministic table for a real run: (text, expected kept routes or None when the format's selection is 'as coded')"""
+    import random
+    if fmt == "ip-plain":
+        text = "".join("10.%d.%d.0/24 dev eth0 scope link\n" % (i // 256, i % 256) for i in range(n)).encode()
+        return text, [("10.%d.%d.0" % (i // 256, i % 256), 24) for i in range(n)]
+    r = random.Random(salt)
+    if fmt == "windows":
+        text, _exp, _hj, _onl = gen_windows_table(r, n, allow_special=False)
+        return text, None
+    text, exp, _hj = gen_table(r, fmt, n, junk_rate=0.0, allow_special=False)
+    return text, [e for e in exp if kept(e[0])]
+
+
+def real_chunks(style, total, salt):
+    """how the tool writes: [(bytes, pause after them)], the remainder in one write at the end"""
+    import random
+    r = random.Random(salt * 31 + 7)
+    if style == "burst":
+        return []
+    if style == "pages":
+        return [(4096, 0.0)] * min(total // 4096, 4000)
+    out, pos, slept = [], 0, 0.0
+    while pos < total and len(out) < 60 and slept < 1.5:
+        k = r.choice([1, 7, 100, 1000, 4095, 4097, 9000, r.randint(1, 30000)])
+        pause = r.choice([0.0, 0.005, 0.02, 0.04])
+        out.append((k, pause))
+        pos += k
+        slept += pause
+    return out
+
+
+REAL_ARGS = {"ip": ["route"], "netstat": ["-rn"], "win": ["PRINT", "-4"]}
+REAL_NAME = {"ip": "ip", "netstat": "netstat", "win": "route"}
+
+
+def real_child():
+    """runs in the child interpreter: reads the case from stdin, runs the real code, prints one JSON line"""
+    import json
+    spec = json.load(sys.stdin)
+    text = b""      # the text comes from the tool, not from the harness
+    if spec["mode"] == "main":
+        st, payload, _wire = impl_server(spec["tool"], text, 0, real=True)
+        res = "OK " + payload.decode("latin-1") if st == "OK" else "CRASH " + str(payload)
+    else:
+        res, _argvs = impl_list_routes(spec["tool"], text, 0, real=True)
+    sys.stdout.write(json.dumps({"result": res}) + "\n")
+    sys.stdout.flush()
+
+
+def _group_state(pgid):
+    """(total cpu ticks, states) of the processes of process group pgid, read from /proc"""
+    ticks, states = 0, []
+    for d in os.listdir("/proc"):
+        if not d.isdigit():
+            continue
+        try:
+            st = open("/proc/%s/stat" % d).read()
+        except OSError:
+            continue
+        f = st[st.rfind(")") + 2:].split()
+        if int(f[2]) != pgid:
+            continue
+        states.append(f[0])
+        ticks += int(f[11]) + int(f[12])
+    return ticks, states
+
+
+def real_start(case):
+    """start one real run; returns a handle for real_finish"""
+    import json
+    import subprocess
+    import tempfile
+    import time
+    text, _exp = real_table(case["fmt"], case["n"], case["salt"])
+    tool = case["tool"]
+    d = tempfile.mkdtemp(prefix="c17-tool-")
+    with open(os.path.join(d, "out.bin"), "wb") as f:
+        f.write(text)
+    with open(os.path.join(d, "spec.json"), "w") as f:
+        json.dump({"args": REAL_ARGS[tool], "chunks": real_chunks(case["style"], len(text), case["salt"]),
+                   "rv": case["rv"], "delay": case.get("delay", 0)}, f)
+    exe = os.path.join(d, REAL_NAME[tool])
+    with open(exe, "w") as f:
+        f.write("#!%s -SE\n" % sys.executable + FAKE_TOOL_SRC)
+    os.chmod(exe, 0o755)
+    env = dict(os.environ)
+    env["PATH"] = d + os.pathsep + env.get("PATH", os.defpath)     # the child's PATH only
+    here = os.path.dirname(os.path.abspath(__file__))
+    p = subprocess.Popen([sys.executable, "-c", "import sys; sys.path.insert(0, %r); import c17; c17.real_child()" % here],
+                         stdin=subprocess.PIPE, stdout=subprocess.PIPE, stderr=subprocess.PIPE, env=env,
+                         start_new_session=True, cwd=d)
+    try:
+        p.stdin.write(json.dumps({"mode": case["mode"], "tool": tool}).encode())
+        p.stdin.close()
+    except OSError:
+        pass
+    p.stdin = None
+    return {"p": p, "dir": d, "t0": time.time(), "bytes": len(text)}
+
+
+def real_finish(h, limit=None):
+    """wait for a real run.  Returns ('OK ...' | 'CRASH ...' | 'HANG' | 'HARNESS ...', seconds, detail)"""
+    import json
+    import shutil
+    import signal
+    import subprocess
+    import time
+    limit = limit or REAL_LIMIT
+    p = h["p"]
+    out = err = b""
+    verdict = None
+    try:
+        try:
+            out, err = p.communicate(timeout=max(0.1, h["t0"] + limit - time.time()))
+        except subprocess.TimeoutExpired:
+            # not back after `limit`: stuck, or merely slow on a loaded machine?  A stuck run burns no CPU and all its
+            # processes sleep; anything else is given more time, up to REAL_HARD_FACTOR * limit.
+            while True:
+                done, quiet = False, True
+                t_prev, _st = _group_state(p.pid)
+                for _ in range(8):
+                    try:
+                        out, err = p.communicate(timeout=0.4)
+                        done = True
+                        break
+                    except subprocess.TimeoutExpired:
+                        pass
+                    t_now, states = _group_state(p.pid)
+                    if t_now != t_prev or any(st != "S" for st in states):
+                        quiet = False
+                    t_prev = t_now
+                if done:
+                    break
+                if quiet or time.time() - h["t0"] > limit * REAL_HARD_FACTOR:
+                    _t, states = _group_state(p.pid)
+                    verdict = ("HANG", ("%d processes of the run alive, all sleeping (states %s), no CPU time used during the last 3 s"
+                                        % (len(states), "".join(states))) if quiet else "still running")
+                    break
+    finally:
+        try:
+            os.killpg(p.pid, signal.SIGKILL)      # the child and the tool it started
+        except OSError:
+            pass
+        try:
+            o2, e2 = p.communicate(timeout=30)
+            out, err = out or o2, err or e2
+        except Exception:
+            pass
+        shutil.rmtree(h["dir"], ignore_errors=True)
+    secs = time.time() - h["t0"]
+    if verdict is not None:
+        return verdict[0], secs, verdict[1]
+    try:
+        return json.loads(out.decode().strip().split("\n")[-1])["result"], secs, ""
+    except Exception:
+        return "HARNESS child gave no result (exit status %r)" % p.returncode, secs, err.decode("latin-1")[-600:]
+
+
+def real_expected(case):
+    """spec side: what a real run must return - the canonical networks of the n lines printed (generator's intent
+    through ipaddress); for `route PRINT` tables the selection of rows is 'as coded', so the text itself goes
+    through the in-memory run, which is compared with the model elsewhere"""
+    text, exp = real_table(case["fmt"], case["n"], case["salt"])
+    if exp is None:
+        ref, _a = impl_list_routes(case["tool"], text, 0)
+        exp = [(x.rsplit("/", 1)[0], int(x.rsplit("/", 1)[1])) for x in ref[3:].split(",")] if len(ref) > 3 else []
+    if case["mode"] == "main":
+        return "OK " + "".join("2,%s,%d\n" % e for e in exp), len(text)
+    return "OK " + ",".join("%s/%d" % e for e in exp), len(text)
+
+
+REAL_HANG_WHAT = ("route discovery (%s) did not return within the time limit when the routing tool is a real process writing to a "
+                  "real pipe and prints %s: the tool and the server wait for each other, the ROUTES message would never be sent "
+                  "and the firewall never started")
+REAL_DIFF_WHAT = ("the networks advertised for a routing tool running as a real process (output read through a real pipe, in the "
+                  "chunks the kernel delivers) are not the canonical networks of the lines it printed")
+
+
+def real_judge(case, res, secs, detail, cap, limit=None):
+    """oracle on one real run; returns None (fine) or (what, replay dict)"""
+    want, nbytes = real_expected(case)
+    rp = dict(case)
+    rp.update({"kind": "real-tool", "tool_output_bytes": nbytes, "pipe_capacity": cap, "seconds": round(secs, 1),
+               "time_limit": limit or REAL_LIMIT})
+    fn = "server.main -> list_routes" if case["mode"] == "main" else "list_routes"
+    if res == "HANG":
+        size = "more than a pipe holds (> %d bytes)" % cap if nbytes > cap else "no more than a pipe holds"
+        rp["observed"] = "no result after %.0f s for %d lines / %d bytes of tool output (%s)" % (secs, case["n"], nbytes, detail)
+        return REAL_HANG_WHAT % (fn, size), rp
+    if res.startswith("HARNESS"):
+        return None
+    if res != want:
+        rp["got"] = res[:300]
+        rp["want"] = want[:300]
+        rp["got_routes"], rp["want_routes"] = res.count("/") + res.count("\n"), want.count("/") + want.count("\n")
+        if res.startswith("CRASH"):
+            return "route discovery raised with the routing tool running as a real process", rp
+        return REAL_DIFF_WHAT, rp
+    return None
+
+
+def real_cases(rng, quick, cap):
+    """the real runs of a tier: table sizes from 0 to several thousand lines (thorough: 40000), below / at / above the
+    pipe capacity, written at once / page by page / slowly in odd-sized chunks, exit status zero and non-zero"""
+    edge, total = 0, 0               # edge lines of the plain table fit in the pipe, edge + 1 do not
+    while total + len("10.%d.%d.0/24 dev eth0 scope link\n" % (edge // 256, edge % 256)) <= cap and edge < 60000:
+        total += len("10.%d.%d.0/24 dev eth0 scope link\n" % (edge // 256, edge % 256))
+        edge += 1
+    S = lambda: rng.randrange(1 << 30)
+    C = lambda mode, tool, fmt, n, style, rv=0, delay=0: {"mode": mode, "tool": tool, "fmt": fmt, "n": n, "style": style,
+                                                          "rv": rv, "salt": S(), "delay": delay}
+    cs = [C("lr", "ip", "ip", 0, "burst"),
+          C("lr", "ip", "ip", rng.randint(1, 40), "slow", rv=rng.choice([0, 1])),
+          C("lr", "netstat", "netstat-linux", rng.randint(100, 600), "slow", rv=rng.choice([0, 2])),
+          C("lr", "ip", "ip-plain", edge, "burst"),
+          C("lr", "ip", "ip-plain", edge + 1, "burst"),
+          C("lr", "ip", "ip", rng.randint(1500, 3000), "pages", rv=1),
+          C("lr", "netstat", "netstat-linux", rng.randint(1000, 2500), "burst"),
+          C("lr", "netstat", "netstat-bsd", rng.randint(2500, 6000), "slow", rv=rng.choice([0, 255])),
+          C("lr", "win", "windows", rng.randint(1200, 3000), "burst", rv=rng.choice([0, 1])),
+          C("lr", "ip", "ip", rng.randint(4000, 9000), "slow", delay=0.3),
+          C("main", "ip", "ip-plain", 2000, "burst"),
+          C("main", "netstat", "netstat-linux", rng.randint(0, 60), "slow", rv=1),
+          C("main", "ip", "ip", rng.randint(1000, 2900), "slow", rv=rng.choice([0, 1]))]
+    if not quick:
+        cs += [C("lr", "ip", "ip-plain", 40000, "burst"), C("lr", "netstat", "netstat-linux", 40000, "pages", rv=1),
+               C("lr", "ip", "ip-plain", edge - 1, "slow"), C("lr", "ip", "ip-plain", edge + 2, "slow")]
+        for _ in range(40):
+            tool, fmt = rng.choice([("ip", "ip"), ("netstat", "netstat-linux"), ("netstat", "netstat-bsd"), ("win", "windows"), ("ip", "ip-plain")])
+            mode = rng.choice(["lr", "lr", "main"])
+            n = rng.choice([rng.randint(0, 50), rng.randint(50, 1200), rng.randint(800, 2900)] + ([rng.randint(2900, 20000)] if mode == "lr" else []))
+            cs.append(C(mode, tool, fmt, n, rng.choice(["burst", "pages", "slow"]), rv=rng.choice([0, 0, 1, 127]), delay=rng.choice([0, 0, 0.2])))
+    return cs
+
+
+def real_runs(ctx, cases, cap, parallel=5):
+    """run the cases (a few at a time) and apply the oracle"""
+    pending = list(cases)
+    running = []
+    while pending or running:
+        while pending and len(running) < parallel:
+            c = pending.pop(0)
+            running.append((c, real_start(c)))
+        c, h = running.pop(0)
+        res, secs, detail = real_finish(h)
+        if res.startswith("HARNESS"):
+            # the child interpreter itself failed (not the code under check): once more, alone
+            res, secs, detail = real_finish(real_start(c))
+        big = h["bytes"] > cap
+        ctx.case(("real", sorted(c.items())), nontrivial=True,
+                 sample={"kind": "real routing tool on a real pipe", "case": c, "tool_output_bytes": h["bytes"], "result": res[:60],
+                         "seconds": round(secs, 2)} if c["n"] and c["mode"] == "lr" and big else None)
+        ctx.count("real_tool_runs")
+        ctx.count("real_tool_output_%s_pipe_capacity" % ("above" if big else "within"))
+        ctx.count("real_tool_%s_%s" % (c["mode"], c["style"]))
+        if c["rv"]:
+            ctx.count("real_tool_exit_status_nonzero")
+        if res.startswith("HARNESS"):
+            ctx.disagree("real routing tool run: the harness's child interpreter gave no result", c, res, detail)
+            continue
+        v = real_judge(c, res, secs, detail, cap)
+        if v is not None:
+            ctx.violation(v[0], v[1])
+    ctx.extra["real_tool_pipe_capacity"] = cap
+
+
+# --------------------------------------------------------------------------
 
 F7_WHAT = "F7: the route scanner raises on a line it cannot interpret instead of skipping it (server dies during start-up)"
 F6_WHAT = "F6: the ROUTES advertisement exceeds 65535 bytes and Mux.send's assert kills the server"
@@ -1223,6 +1564,11 @@ def correspondence(ctx):
             table_case(tool, fmt, text, exp, False, ["bigtab", n])
         delivery_case(tool, fmt, text, exp, ["big", n], check_client=(n <= 5000))
 
+    # ---- G: the routing tool as a real process on a real pipe (sizes below / at / above the pipe capacity, slow writers,
+    #      non-zero exit status after printing), through the real list_routes() and the real server.main, under a watchdog
+    cap = pipe_capacity()
+    real_runs(ctx, real_cases(rng, quick, cap), cap)
+
     # ---- F: client onroutes on arbitrary payloads (well-formed renderings + malformed)
     pays = [b"", b"\n", b"\n\n", b"2,1.2.3.0,24\n", b"2,1.2.3.0,24", b"2,1.2.3.0,24\r\n2,10.0.0.0,8\r\n", b" 2 ,1.2.3.0, 24 \n",
             b"2,1.2.3.0\n", b"2\n", b"x,1.2.3.0,24\n", b"2,1.2.3.0,x\n", b"2,1.2.3.0,2_4\n", b"+2,1.2.3.0,-4\n", b"10,fe80::,64\n",
@@ -1256,6 +1602,18 @@ def replay(ctx, rp):
     """re-run a stored failing input against the real code; returns True if it still fails"""
     load()
     r = rp.get("replay", {})
+    if r.get("kind") == "real-tool":
+        case = {k: r[k] for k in ("mode", "tool", "fmt", "n", "style", "rv", "salt")}
+        case["delay"] = r.get("delay", 0)
+        cap = pipe_capacity()
+        res, secs, detail = real_finish(real_start(case))
+        v = real_judge(case, res, secs, detail, cap)
+        print("%s with a real `%s` printing %d lines (%d bytes, pipe capacity %d, written %s, exit status %d) -> %s after %.1f s %s"
+              % ("server.main" if case["mode"] == "main" else "list_routes()", REAL_NAME[case["tool"]], case["n"], real_expected(case)[1], cap,
+                 case["style"], case["rv"], res[:120].replace("\n", " "), secs, detail))
+        if v is not None:
+            print("property failure:", v[0])
+        return v is not None or res.startswith("HARNESS")
     if r.get("kind") == "table" and r.get("text_hex"):
         text = bytes.fromhex(r["text_hex"]) if r["text_hex"] != "-" else b""
         got = impl_lr(r["tool"], text)
